@@ -1,4 +1,4 @@
-"""C04: integer + - * negation ++/-- are lane-wise two's-complement."""
+"""C04: bitwise operators, shifts (amounts 0..bits, scalar and per-lane) and rotations."""
 import common
 import runner
 
@@ -28,8 +28,7 @@ def run(tier, a=None):
     runner.run_families(res, scal, ["bitwise"], lambda vt, cfg: vt.n == 1 and (tf0 is None or tf0(vt, cfg)),
                         override="judge_ub", keytag="ub", ubmode=True)
     res.trusted = ["clang 14 front end and -O2 pipeline preserve the meaning of UB-free executions",
-                   "LLVM LangRef: add/sub/mul without nsw/nuw are arithmetic modulo 2^n per lane"]
-    return common.finish(res, explanation="every integer vector type x configuration x "
-                         "{+,-,*,unary -,++,--, compound forms}: optimised IR summarised into a "
-                         "closed form and compared with add/sub/mul modulo 2^bits on the same lane",
+                   "LLVM LangRef semantics of the IR instructions; Intel SDM semantics of the x86 intrinsics as modelled in spec/isa.py",
+                   "the term normaliser, the exact IEEE evaluator (lib/fpeval.py) and the abstract interpreter (lib/absint.py, self-tested against the concrete evaluator)"]
+    return common.finish(res, explanation='every integer vector type x configuration x {&, |, ^, ~, <<, >> by a run-time scalar amount, by a per-lane vector amount and by a compile-time amount, rotl/rotr in all three forms, compound forms}: optimised IR summarised into a closed form and compared with the lane-wise definition (shifts by amounts up to and including the lane width saturate: 0, or the sign fill for arithmetic right shifts; rotations take the amount modulo the width); an over-wide LLVM shift on a valid amount is poison and therefore a refutation',
                          write_floor=getattr(a, "write_floor", False))
